@@ -7,6 +7,7 @@ import (
 	"fmt"
 	"net/http"
 	"os"
+	"path/filepath"
 	"strconv"
 	"strings"
 	"testing"
@@ -55,7 +56,7 @@ func init() {
 		if err != nil {
 			panic(err)
 		}
-		r, err := rapp.NewReceiver(context.Background(), rapp.NewOptionsForVerif("/upload", dir, 30, 0), rapp.GetEmptyConfig())
+		r, err := rapp.NewReceiver(context.Background(), rapp.NewOptionsForVerif("/upload", filepath.Join(dir, "s", "t", "u"), 30, 0), rapp.GetEmptyConfig())
 		if err != nil {
 			panic(err)
 		}
@@ -266,6 +267,34 @@ func (C08) Gen(rng *core.Rng, tier string, idx int) *core.Scenario {
 				op.Body = []byte(e.body)
 				op.Hdr = map[string]string{"Content-Type": "application/json"}
 			}
+		case 8: // individually valid parameters in unusual combinations, against small and current segment numbers
+			pool := []string{"snr_10", "snr_0", "timesubsstpp_en", "timesubswvtt_en,sv", "chunkdur_0.5", "chunkdur_2", "ato_2", "ato_8", "ato_1.5", "ato_inf", "segtimeline_1", "segtimelinenr_1",
+				"tsbd_1", "tsbd_0", "periods_60", "continuous_1", "start_1", "startrel_-20", "stoprel_1", "ltgt_2000", "timesubsdur_300", "timesubsreg_1", "scte35_2", "eccp_cbcs", "mup_1", "timeoffset_-5",
+				"utc_none", "tfdt_32", "patch_60", "subsstppfmt_1", "dur_4", "init_1", "cont_1", "insertad_1"}
+			rng.Shuffle(len(pool), func(i, j int) { pool[i], pool[j] = pool[j], pool[i] })
+			parts := append([]string{}, pool[:rng.Range(2, 4)]...)
+			nr := core.Pick(rng, []int64{0, 1, 3, 9, 10, 11, n, n + 1})
+			var name string
+			if rng.Chance(0.3) {
+				parts = append(parts, "snr_10")
+			}
+			switch rng.Intn(4) {
+			case 0:
+				name = fmt.Sprintf("timestpp-en/%d.m4s", nr)
+				parts = append(parts, "timesubsstpp_en")
+			case 1:
+				name = fmt.Sprintf("timewvtt-en/%d.m4s", nr)
+				parts = append(parts, "timesubswvtt_en")
+			case 2:
+				name = ar.MPD
+			default:
+				name = segName(core.Pick(rng, reps), nr)
+			}
+			at := now
+			if rng.Chance(0.4) { // an instant at which small numbers are inside the window
+				at = int64(rng.Range(0, 40_000))
+			}
+			op = c08Op{Kind: "segname", What: "valid-combination", Expect: "any", Target: fmt.Sprintf("%s?nowMS=%d", c08Join(parts, ar.Asset+"/"+name), at)}
 		default: // uploads to the receiver with hostile bodies (engine S material)
 			op = c08Upload(rng)
 		}
@@ -382,7 +411,7 @@ func (C08) Run(t *testing.T, sc *core.Scenario, res *core.Result) {
 			res.Violate("C08.terminates", merge(sig, core.Sig("kind", "hang")), "%s %s never returned (%s)", m, trunc(op.Target, 300), g.Note)
 			continue
 		case g.Died:
-			res.Violate("C08.no-crash", merge(sig, core.Sig("kind", "process-died")), "%s %s killed the server process (%s)", m, trunc(op.Target, 300), g.Note)
+			res.Violate("C08.no-crash", merge(sig, core.Sig("kind", "process-died", "frame", g.PanicFrame)), "%s %s killed the server process (%s)", m, trunc(op.Target, 300), g.Note)
 			continue
 		case g.Panic != "":
 			res.Violate("C08.no-crash", merge(sig, core.Sig("kind", "panic", "frame", g.PanicFrame)), "%s %s: panic %s", m, trunc(op.Target, 300), g.Panic)
